@@ -24,6 +24,17 @@ for name in sorted(os.listdir(root)):
     mm = re.search(r"CAUGHT-BY:(.*)", checks)
     if mm:
         caught = mm.group(1).split()
+    else:
+        # no finished evaluation on file (e.g. an interrupted re-evaluation): keep what was recorded
+        mp_old = os.path.join(d, "meta.json")
+        if os.path.exists(mp_old):
+            try:
+                old_meta = json.load(open(mp_old))
+                caught = old_meta.get("caught_by", [])
+                if not vet:
+                    continue_keep = old_meta
+            except Exception:
+                pass
     suite = re.search(r"suite with change: (.*)", vet)
     demo_with = re.search(r"demo with change: (.*)", vet)
     demo_without = re.search(r"demo on unchanged code: (.*)", vet)
@@ -42,7 +53,7 @@ for name in sorted(os.listdir(root)):
         override = json.load(open(op))
     meta = {
         "id": name,
-        "origin": ("sub-agent given only the text of %s and a private worktree of /repo" % target) + ("; second round: additionally told in general terms what a randomized checker samples, and asked for changes such a checker is likely to miss" if "-r2" in name else "") + ("; third round: property text and worktree only, asked for three changes of different kinds that need something specific to manifest" if "-r3" in name else ""),
+        "origin": ("sub-agent given only the text of %s and a private worktree of /repo" % target) + ("; second round: additionally told in general terms what a randomized checker samples, and asked for changes such a checker is likely to miss" if "-r2" in name else "") + ("; third / fourth round: property text and worktree only, asked for three changes of different kinds that need something specific to manifest" if ("-r3" in name or "-r4" in name) else "") + ("; fifth / sixth round: additionally told in general terms what the simulator samples and what it does not, and asked for changes likely to escape it" if ("-r5" in name or "-r6" in name) else ""),
         "breaks": override.get("breaks", [target]),
         "files": files,
         "what": what,
